@@ -216,7 +216,27 @@ def ev_rescale(w):
     a = dig_plane(w.P)
     q = w.P.rescale(2)
     f = lentil.Wavefront(WL) * q          # the rescaled plane is used, not only inspected
-    return (a,), (dig_plane(q), dig_wf(f))
+    try:
+        extra = (h(np.asarray(q.ptt_vector)) if q.ptt_vector is not None else None, dig_plane(q.fit_tilt()))
+    except Exception as e:
+        extra = ('raises', type(e).__name__)
+    # a twin built from the plane's public attributes (never queried, never fitted) resamples to the same plane: what a plane
+    # does depends on what it is, not on which of its read-only properties were looked at before
+    P = w.P
+    twin = lentil.Pupil(amplitude=np.array(P.amplitude, copy=True), opd=np.array(P.opd, copy=True), mask=np.array(P.mask, copy=True),
+                        pixelscale=P.pixelscale, focal_length=P.focal_length)
+    twin.tilt = list(P.tilt)
+    if dig_plane(twin) == a:
+        q2 = twin.rescale(2)
+        try:
+            extra2 = (h(np.asarray(q2.ptt_vector)) if q2.ptt_vector is not None else None, dig_plane(q2.fit_tilt()))
+        except Exception as e:
+            extra2 = ('raises', type(e).__name__)
+        same = (dig_plane(q2), extra2) == (dig_plane(q), extra)
+        return (a,), (dig_plane(q), dig_wf(f), extra), [(same, 'path-dependent-plane:rescale',
+                                                         'rescaling this plane gives a different plane (or a different tilt fit afterwards) than rescaling a plane '
+                                                         f'built afresh from the same amplitude, OPD, mask, pixel scale and tilt records: {extra} vs {extra2}')]
+    return (a,), (dig_plane(q), dig_wf(f), extra)
 
 
 def ev_dft2_a(w):
@@ -651,6 +671,8 @@ def probe_catalogue(seed):
         'pad-crop': lambda: (lentil.pad, dict(array=R((6, 5), 6), shape=(3, 4))),
         'rebin': lambda: (lentil.rebin, dict(img=R((4, 6), 7), factor=2)),
         'rescale': lambda: (lentil.rescale, dict(img=R((8, 8), 8), scale=1.5)),
+        'rescale-mask': lambda: (lentil.rescale, dict(img=R((8, 8), 8), scale=1.5, mask=(R((8, 8), 9) > 0.5) * R((8, 8), 10))),
+        'rescale-shape-order': lambda: (lentil.rescale, dict(img=R((8, 6), 8), scale=0.75, shape=(8, 6), order=1, mode='constant', unitary=False)),
         'rescale-identity': lambda: (lentil.rescale, dict(img=R((8, 8), 8), scale=1)),
         'normalize_power': lambda: (lentil.normalize_power, dict(array=R((4, 4), 9), power=2)),
         'boundary': lambda: (lentil.boundary, dict(x=mask())),
@@ -773,6 +795,22 @@ def chk_probe(case, acc, seed):
         r2 = fn2(**args2)
         if _dig_any(r2) != keep:
             acc.violation(f'probe:{name}:not-repeatable', case, 'the identical call returned something else after the first result was edited in place / under another global random state')
+        # the same call on read-only arguments: a function that does not modify its inputs has no need to write into them
+        fn3, args3 = cat[name]()
+        for o in _arrays_in(list(args3.values())):
+            try:
+                o.flags.writeable = False
+            except ValueError:
+                pass
+        try:
+            r3 = fn3(**args3)
+            if _dig_any(r3) != keep:
+                acc.violation(f'probe:{name}:read-only-arguments-change-result', case, 'the same call on read-only arguments returned something else')
+        except ValueError as e:
+            if 'read-only' in str(e):
+                acc.violation(f'probe:{name}:writes-into-argument', case, f'with read-only arguments: {e!r}')
+            else:
+                raise
     acc.cls('probes')
     acc.case(case, outcome='probe')
 
